@@ -414,9 +414,28 @@ func runC02(c *Ctx) {
 			}, func(n ast.Node, l core.Loc) bool { _, isBr := n.(*ast.BranchStmt); return isBr && within(clause, n) }, core.InStmt(clause))
 			_, exC := g.CountPathsIn(start, func(n ast.Node) int { return len(core.CallsTo(info, n, false, "server.runnerRef.unload")) },
 				func(n ast.Node, l core.Loc) bool { _, isBr := n.(*ast.BranchStmt); return isBr && within(clause, n) }, core.InStmt(clause))
+			// paired: counting both kinds together no path has exactly one of them (an unload without its event,
+			// or an event without an unload), and neither happens twice on a path
+			_, exB := g.CountPathsIn(start, func(n ast.Node) int {
+				k := len(core.CallsTo(info, n, false, "server.runnerRef.unload"))
+				core.InspectShallow(n, func(x ast.Node) bool {
+					if ss, ok := x.(*ast.SendStmt); ok && m.chanFieldOf(ss.Chan, f) == m.fUnloaded {
+						k++
+					}
+					return true
+				})
+				return k
+			}, func(n ast.Node, l core.Loc) bool { _, isBr := n.(*ast.BranchStmt); return isBr && within(clause, n) }, core.InStmt(clause))
+			some := false
 			for l, mu := range exU {
-				c.Check("C02-R5", f.Key()+" expiry branch: unload events == unloads on every path", "exit of the expiry branch", mu == exC[l] && (mu == 1 || mu == 2), "masks: events="+itoa(int(mu))+" unloads="+itoa(int(exC[l])))
+				same := mu == exC[l] && (mu == 1 || mu == 2)
+				paired := mu&4 == 0 && exC[l]&4 == 0 && exB[l]&2 == 0
+				if exB[l]&4 != 0 {
+					some = true
+				}
+				c.Check("C02-R5", f.Key()+" expiry branch: unload events == unloads on every path", "exit of the expiry branch", same || paired, "masks: events="+itoa(int(mu))+" unloads="+itoa(int(exC[l]))+" both="+itoa(int(exB[l])))
 			}
+			c.Check("C02-R5", f.Key()+" expiry branch: some path unloads and reports it", c.Pos(clause), some, "no path through the expiry branch both unloads the runner and posts the unload event")
 		}
 		ruleDeleteByIdentity(c, m, "C02-R9")
 	}
@@ -428,10 +447,20 @@ func runC02(c *Ctx) {
 		n := 0
 		for _, cb := range g.CondBlocks() {
 			be, ok := ast.Unparen(cb.Cond).(*ast.BinaryExpr)
-			if !ok || core.FieldVar(info, be.X) != m.fRefCount || (be.Op != token.LEQ && be.Op != token.EQL) {
+			if !ok || core.FieldVar(info, be.X) != m.fRefCount {
 				continue
 			}
-			if v, isC := core.ConstInt(info, be.Y); !isC || v != 0 {
+			// which edge means "nobody uses the runner": refCount <= 0 / == 0 / < 1 true, refCount > 0 / != 0 / >= 1 false
+			idle := -1
+			if v, isC := core.ConstInt(info, be.Y); isC {
+				switch {
+				case (be.Op == token.LEQ || be.Op == token.EQL) && v == 0, be.Op == token.LSS && v == 1:
+					idle = 0
+				case (be.Op == token.GTR || be.Op == token.NEQ) && v == 0, be.Op == token.GEQ && v == 1:
+					idle = 1
+				}
+			}
+			if idle < 0 || len(cb.B.Succs) != 2 {
 				continue
 			}
 			// only the one in the finish branch (dominated by a refCount--)
@@ -445,8 +474,28 @@ func runC02(c *Ctx) {
 				continue
 			}
 			n++
-			var ifStmt ast.Stmt = cb.B.Succs[0].Stmt
-			_, ex := g.CountPathsIn(core.StartOf(cb.B.Succs[0]), func(nd ast.Node) int {
+			// the region: the if / switch statement the test belongs to
+			var ifStmt ast.Node = cb.B.Succs[0].Stmt
+			ast.Inspect(f.Body, func(x ast.Node) bool {
+				switch y := x.(type) {
+				case *ast.IfStmt:
+					if within(y.Cond, cb.Cond) {
+						ifStmt = y
+					}
+				case *ast.SwitchStmt:
+					if within(y, cb.Cond) && y.Tag == nil {
+						for _, cl := range y.Body.List {
+							for _, ce := range cl.(*ast.CaseClause).List {
+								if within(ce, cb.Cond) {
+									ifStmt = y
+								}
+							}
+						}
+					}
+				}
+				return true
+			})
+			_, ex := g.CountPathsIn(core.StartOf(cb.B.Succs[idle]), func(nd ast.Node) int {
 				k := 0
 				core.InspectShallow(nd, func(x ast.Node) bool {
 					switch y := x.(type) {
